@@ -557,9 +557,9 @@ func TestC07Stress(t *testing.T) {
 	r := NewRun(t, "C07", "stress")
 	r.Rule = "free-running RunSequencer against 8-24 concurrent submitters drawing from a shared growing universe (one third duplicates, racing the pool rotation, the in-sequencing map and the cache write); all acknowledgements of one entry must be equal, every entry has exactly one leaf, every acknowledgement names its leaf; run under the race detector as well; distinct = (source label, index mod 256)"
 	rng := NewRng(r.Seed, "c07s")
-	reps, per := pick(3, 12), pick(250, 450)
+	reps, per := pick(3, 8), pick(250, 400)
 	if raceEnabled {
-		reps, per = pick(1, 6), pick(80, 200)
+		reps, per = pick(1, 3), pick(80, 120)
 	}
 	shard, _ := shardInfo()
 	for rep := 0; rep < reps; rep++ {
